@@ -134,6 +134,30 @@ func anyTagKindMismatch(docs []parser.VerifDoc) bool {
 	return found
 }
 
+// scalarIsNull: yaml.v3 resolves the scalar to null (decoding it into an interface{} yields nil without error).
+func scalarIsNull(n *yaml.Node) bool {
+	var v any = "sentinel"
+	ok := func() (ok bool) {
+		defer func() { recover() }()
+		return n.Decode(&v) == nil
+	}()
+	return ok && v == nil
+}
+
+// hasNullTagText: a scalar whose tag is !!null (explicit tag) but which yaml.v3 does not resolve to null
+// (`!!null x`: every decode of the node fails; `!!null ""` quoted: a string, not a null).
+func hasNullTagText(docs []parser.VerifDoc) bool {
+	found := false
+	for _, d := range docs {
+		walkForest(d.Node, map[*yaml.Node]bool{}, func(n *yaml.Node) {
+			if n.Kind == yaml.ScalarNode && n.ShortTag() == "!!null" && !scalarIsNull(n) {
+				found = true
+			}
+		})
+	}
+	return found
+}
+
 func hasAliasOrMerge(docs []parser.VerifDoc) bool {
 	found := false
 	for _, d := range docs {
@@ -306,6 +330,8 @@ func runC01(args []string) int {
 				known = "C01-tag-kind"
 			case hasNonAliasMerge(docs):
 				known = "C01-merge-not-alias"
+			case hasNullTagText(docs):
+				known = "C01-null-tag-text"
 			}
 			if known != "" {
 				rep.failKnown(fmt.Sprint(id), what, kept, known)
